@@ -25,8 +25,9 @@ def eMMIter (s : St) (op : String) (a b : Win) (ia ib : ItS) : Res St := do
   else if isSc b then kIterVS s a (← s.rd b 1 0) f ia
   else kIterVV s a b f ia ib
 
-/-- `StdEng.MinBetween(a, b, opts...)`: a reuse tensor is *always* present after the "anything
-    needs to be created" block, so the unsafe cases reach `panic("Unreachable")`. -/
+/-- `StdEng.MinBetween(a, b, opts...)`: a result tensor of the operand's shape and data order is created in safe mode
+    when no reuse tensor is given (`newDenseLike`); `UseUnsafe()` without reuse tensor works in place in `a`; a reuse
+    tensor is the destination whether or not `UseUnsafe()` is given as well. -/
 def engMMVV (s : St) (op : String) (a b : Dense) (o : Opts) : Res EngOut := do
   if !ordTypes.contains a.dt then throwErr "typeclass a"
   if !ordTypes.contains b.dt then throwErr "typeclass b"
@@ -36,23 +37,36 @@ def engMMVV (s : St) (op : String) (a b : Dense) (o : Opts) : Res EngOut := do
   let useIter := a.requiresIterator || b.requiresIterator ||
     (match fo.reuse with | some r => r.requiresIterator | none => false) || !sameOrd a b ||
     (match fo.reuse with | some r => !sameOrd a r || !sameOrd b r | none => false)
-  let (s, r, created) : St × Dense × Bool := match fo.reuse with
-    | some r => (s, r, false)
-    | none => let (s, d) := newDenseZero s a.dt a.shape; (s, d, true)
-  if !fo.safe then throwPanic "Unreachable"
-  let ret : Ret := if created then .fresh r else .reuse
-  let reuseOut : Option Dense := if created then fo.reuse else some r
-  if useIter then
-    let ia ← a.itStream s
-    let ib ← b.itStream s
-    let ir ← r.itStream s
-    let s ← Dense.copyIterOffsets s r.win a.win (ir.map (·.1)) (ia.map (·.1))
-    let s ← eMMIter s op r.win b.win ir ib
-    pure ⟨s, reuseOut, ret⟩
-  else
-    let s ← Dense.rawCopy s r.win a.win
-    let s ← eMM s op r.win b.win
-    pure ⟨s, reuseOut, ret⟩
+  let (s, reuse, created) : St × Option Dense × Bool := match fo.reuse with
+    | some r => (s, some r, false)
+    | none =>
+      if fo.safe then let (s, d) := newDenseZero s a.dt a.shape a.ap.o.col; (s, some d, true)
+      else (s, none, false)
+  match reuse with
+  | none =>
+    -- `!safe && reuse == nil`: in place in `a`
+    if useIter then
+      let ia ← a.itStream s
+      let ib ← b.itStream s
+      let s ← eMMIter s op a.win b.win ia ib
+      pure ⟨s, none, .a⟩
+    else
+      let s ← eMM s op a.win b.win
+      pure ⟨s, none, .a⟩
+  | some r =>
+    let ret : Ret := if created then .fresh r else .reuse
+    let reuseOut : Option Dense := if created then fo.reuse else some r
+    if useIter then
+      let ia ← a.itStream s
+      let ib ← b.itStream s
+      let ir ← r.itStream s
+      let s ← Dense.copyIterOffsets s r.win a.win (ir.map (·.1)) (ia.map (·.1))
+      let s ← eMMIter s op r.win b.win ir ib
+      pure ⟨s, reuseOut, ret⟩
+    else
+      let s ← Dense.rawCopy s r.win a.win
+      let s ← eMM s op r.win b.win
+      pure ⟨s, reuseOut, ret⟩
 
 /-- `StdEng.MinBetweenScalar(t, s, leftTensor, opts...)` -/
 def engMMScalar (s : St) (op : String) (t : Dense) (sc : ScalarArg) (leftTensor : Bool) (o : Opts) : Res EngOut := do
@@ -63,38 +77,54 @@ def engMMScalar (s : St) (op : String) (t : Dense) (sc : ScalarArg) (leftTensor 
   let useIter := !isSclr && (t.requiresIterator ||
     (match fo.reuse with | some r => r.requiresIterator || !sameOrd r t | none => false))
   let (dA, dB) := if leftTensor then (t.win, sc.win) else (sc.win, t.win)
-  let (s, r, created) : St × Dense × Bool := match fo.reuse with
-    | some r => (s, r, false)
-    | none => let (s, d) := newDenseZero s t.dt t.shape; (s, d, true)
-  if !fo.safe then throwPanic "Unreachable"
-  let ret : Ret := if created then .fresh r else .reuse
-  let reuseOut : Option Dense := if created then fo.reuse else some r
+  let (s, reuse, created) : St × Option Dense × Bool := match fo.reuse with
+    | some r => (s, some r, false)
+    | none =>
+      if fo.safe then let (s, d) := newDenseZero s t.dt t.shape t.ap.o.col; (s, some d, true)
+      else (s, none, false)
   if useIter && sc.win.len != 1 then throwPanic "nil iterator: scalar operand with a multi-cell window"
-  if useIter then
-    let it ← t.itStream s
-    let ir ← r.itStream s
-    if !leftTensor then
-      let s ← Dense.copyIterOffsets s r.win dB (ir.map (·.1)) (it.map (·.1))
-      -- `MinBetweenIter(typ, dataA, dataReuse, ait, bit)`: the reuse buffer is walked with the operand's iterator
-      let s ← eMMIter s op dA r.win [] it
-      pure ⟨s, reuseOut, ret⟩
+  match reuse with
+  | none =>
+    -- `!safe && reuse == nil`: in place in the tensor
+    if useIter then
+      let it ← t.itStream s
+      let (ia, ib) : ItS × ItS := if leftTensor then (it, []) else ([], it)
+      let s ← eMMIter s op dA dB ia ib
+      pure ⟨s, none, .a⟩
     else
-      let s ← Dense.copyIterOffsets s r.win dA (ir.map (·.1)) (it.map (·.1))
-      let s ← eMMIter s op r.win dB ir []
-      pure ⟨s, reuseOut, ret⟩
-  else
-    if dA.len == 1 && dB.len == 1 && !leftTensor then
-      let s ← Dense.rawCopy s r.win dB
-      let s ← eMM s op r.win dA
-      pure ⟨s, reuseOut, ret⟩
-    else if leftTensor then
-      let s ← Dense.rawCopy s r.win dA
-      let s ← eMM s op r.win dB
-      pure ⟨s, reuseOut, ret⟩
+      let s ← eMM s op dA dB
+      -- scalar on the left of a one-element tensor: the kernel has put the result into the scalar's header; it is
+      -- copied back into the tensor
+      let s ← (if !leftTensor && dA.len == 1 && dB.len == 1 then Dense.rawCopy s dB dA else pure s)
+      pure ⟨s, none, .a⟩
+  | some r =>
+    let ret : Ret := if created then .fresh r else .reuse
+    let reuseOut : Option Dense := if created then fo.reuse else some r
+    if useIter then
+      let it ← t.itStream s
+      let ir ← r.itStream s
+      if !leftTensor then
+        let s ← Dense.copyIterOffsets s r.win dB (ir.map (·.1)) (it.map (·.1))
+        -- `MinBetweenIter(typ, dataA, dataReuse, ait, bit)`: the reuse buffer is walked with the operand's iterator
+        let s ← eMMIter s op dA r.win [] it
+        pure ⟨s, reuseOut, ret⟩
+      else
+        let s ← Dense.copyIterOffsets s r.win dA (ir.map (·.1)) (it.map (·.1))
+        let s ← eMMIter s op r.win dB ir []
+        pure ⟨s, reuseOut, ret⟩
     else
-      let s ← Dense.rawCopy s r.win dB
-      let s ← eMM s op dA r.win
-      pure ⟨s, reuseOut, ret⟩
+      if dA.len == 1 && dB.len == 1 && !leftTensor then
+        let s ← Dense.rawCopy s r.win dB
+        let s ← eMM s op r.win dA
+        pure ⟨s, reuseOut, ret⟩
+      else if leftTensor then
+        let s ← Dense.rawCopy s r.win dA
+        let s ← eMM s op r.win dB
+        pure ⟨s, reuseOut, ret⟩
+      else
+        let s ← Dense.rawCopy s r.win dB
+        let s ← eMM s op dA r.win
+        pure ⟨s, reuseOut, ret⟩
 
 def mmStepM (ps : PState) (_i : Nat) (toks : List String) : PState × StepOut :=
   match toks with
@@ -123,9 +153,9 @@ def mmStepM (ps : PState) (_i : Nat) (toks : List String) : PState × StepOut :=
     | _, _ => (ps.failVar, .fields "r=skip")
   | _ => (ps, .fields "r=badprog")
 
-/-- F11: any MinBetween/MaxBetween with UseUnsafe reaches `panic("Unreachable")`.
-    F31 (shared with the comparisons): scalar-left on an iterator path walks the result with the
-    operand's offsets. -/
+/-- F31 (shared with the comparisons): scalar-left on an iterator path walks the result tensor (given or created) with the
+    operand's offsets. F10 (shared with `bin`): the reuse tensor is the second operand; the destination of an unsafe call
+    (the first operand) shares storage cells with the other operand through a different access pattern. -/
 def mmExcl (ps : PState) (toks : List String) : List String × Bool :=
   match toks with
   | "mmb" :: _ :: _ :: a :: b :: opts =>
@@ -133,16 +163,19 @@ def mmExcl (ps : PState) (toks : List String) : List String × Bool :=
     let reuse := (opts.find? (·.startsWith "reuse=")).bind (fun t => (ps.obj (t.drop 6).toString).map (·.2))
     let reuseId := (opts.find? (·.startsWith "reuse=")).bind (fun t => (ps.obj (t.drop 6).toString).map (·.1))
     let f31 := a.startsWith "#" && (match ps.obj b with
-      | some (_, t) => Excl_cmpSameIterSV t reuse false true uns
+      | some (_, t) => Excl_cmpSameIterSV t reuse false true (uns && reuse.isNone)
       | none => false)
+    let overlaps (p q : Dense) : Bool := p.win.buf == q.win.buf && p.win.off < q.win.off + q.win.len && q.win.off < p.win.off + p.win.len
+    let samePattern (p q : Dense) : Bool := p.win.off == q.win.off && p.win.len == q.win.len && p.ap.shape == q.ap.shape && p.ap.strides == q.ap.strides
     let f10 := match ps.obj a, ps.obj b, reuseId with
       | some _, some (bid, _), some rid => rid == bid
       | _, _, _ => false
+    let f10 := f10 || (uns && reuse.isNone && (match ps.obj a, ps.obj b with
+      | some (_, x), some (_, y) => overlaps x y && !samePattern x y
+      | _, _ => false))
     let tens := [a, b].filterMap (fun t => (ps.obj t).map (·.2))
     let f35 := tens.any (fun t => Excl_reuseOrderFlip t reuse)
-    let f36 := tens.any (fun t => Excl_rowMajorResult t reuse.isSome uns)
-    ((if uns then ["F11"] else []) ++ (if f31 then ["F31"] else []) ++ (if f10 then ["F10"] else []) ++
-     (if f35 then ["F35"] else []) ++ (if f36 then ["F36"] else []), true)
+    ((if f31 then ["F31"] else []) ++ (if f10 then ["F10"] else []) ++ (if f35 then ["F35"] else []), true)
   | _ => ([], false)
 
 /-- S: elementwise minimum / maximum (`minb x y`, both orders agree on NaN-free data). -/
